@@ -400,6 +400,121 @@ def run(chk):
                detail="VirtMem::%s is called under kUseDualMapping=%s but VirtMem::%s under %s" % (acq, sorted(map(str, pol[acq])), rel_, sorted(map(str, pol.get(rel_, [])))))
     chk.floor(R7 + ":obligations", nex, 3)
 
+    # ---------------------------------------------------------------- C09.f the free-space cache is rebuilt when a block becomes empty
+    R8 = "R-EMPTY-CACHE-SIBLINGS"
+    chk.rule(R8, "every site that sets JitAllocatorBlock::kFlagEmpty assigns, in the straight-line region that leads to it (callee assignments "
+                 "included), the same free-space cache fields as its siblings (_largest_unused_area, _search_start, _search_end): an empty "
+                 "block is always found by the next allocation")
+    CACHE = ("_largest_unused_area", "_search_start", "_search_end")
+
+    def plain_writes(fn, el):
+        x = fn.e(el)
+        out = set()
+        if not x:
+            return out
+        if x["k"] == "binop" and x["op"] == "=":
+            p = fn.access_path(x["lhs"]) or ""
+            if p.split(".")[-1] in CACHE:
+                out.add(p.split(".")[-1])
+        elif x["k"] in ("mcall", "call"):
+            g = fns.get((x.get("callee") or "").replace("asmjit::", ""))
+            if g is not None and g is not fn:
+                # fields assigned on every path of the callee
+                def efx(eid, y, g=g):
+                    if y["k"] == "binop" and y["op"] == "=":
+                        q = (g.access_path(y["lhs"]) or "").split(".")[-1]
+                        if q in CACHE:
+                            return ((("w", q),), ())
+                    return None
+                mm = Must(g, efx, None)
+                st = mm.IN.get(g.exit) or frozenset()
+                out |= {f[1] for f in st}
+        return out
+    sites_e = []
+    for sname, fn in fns.items():
+        for i, x in fn.calls(lambda x: x.get("cn") == "add_flags"):
+            if "kFlagEmpty" not in fn.text(i):
+                continue
+            pos = fn.block_of().get(i)
+            if not pos:
+                continue
+            got = set()
+            b, idx = pos
+            elems = fn.blocks[b]["elems"][:idx]
+            hops = 0
+            while True:
+                for el in elems:
+                    if isinstance(el, int):
+                        got |= plain_writes(fn, el)
+                preds = fn.preds.get(b, [])
+                if len(preds) != 1 or hops > 8:
+                    break
+                # stay inside the region guarded by the emptiness test: stop at a conditional branch's origin block
+                pb = preds[0]
+                if len([s_ for s_ in fn.blocks[pb]["succs"] if s_ is not None]) != 1:
+                    break
+                b = pb
+                elems = fn.blocks[b]["elems"]
+                hops += 1
+            # elements after the call in the same block count as well (order inside the region is irrelevant)
+            for el in fn.blocks[pos[0]]["elems"][pos[1]:]:
+                if isinstance(el, int):
+                    got |= plain_writes(fn, el)
+            sites_e.append((sname, fn, i, got))
+    chk.floor(R8 + ":set-empty-sites", len(sites_e), 2)
+    want = set()
+    for _, _, _, got in sites_e:
+        want |= got
+    for sname, fn, i, got in sites_e:
+        chk.ob(R8, sname, got == want and len(want) >= 2, loc=fn.loc(i),
+               detail="%s sets kFlagEmpty but assigns only %s of the free-space cache; a sibling site also assigns %s - the stale value makes "
+                      "alloc() skip the emptied block" % (sname, sorted(got), sorted(want - got)),
+               key="emptycache|%s" % sname)
+
+    # ---------------------------------------------------------------- C09.g areas are counted in pool granules
+    R9 = "R-AREA-UNIT"
+    chk.rule(R9, "area indices and sizes are counted in granules of the block's pool: every conversion between areas and bytes multiplies or "
+                 "shifts by the pool's granularity (JitAllocatorPool::granularity / granularity_log2, or a local copy of it); the allocator-wide "
+                 "base granularity (JitAllocatorPrivateImpl::granularity) is never a conversion factor")
+    nconv = 0
+    for sname, fn in fns.items():
+        loc_kind = {}
+        for x in fn.ex.values():
+            if x["k"] == "decl":
+                for v in x["vars"]:
+                    if v.get("init"):
+                        for j in fn.walk(v["init"]):
+                            y = fn.e(j)
+                            if y["k"] == "member" and y.get("field") in ("granularity", "granularity_log2"):
+                                loc_kind[v["did"]] = "impl" if "PrivateImpl" in (y.get("cls") or y.get("bty") or fn.text(y["base"])) or re.search(r"\bimpl\b", fn.text(y["base"])) else "pool"
+        for i, x in fn.ex.items():
+            if not (x["k"] == "binop" and x["op"] in ("*", ">>", "<<", "*=", ">>=", "<<=")):
+                continue
+            kinds = set()
+            for side in ("lhs", "rhs"):
+                if x["op"] in (">>", "<<", ">>=", "<<=") and side == "lhs":
+                    continue
+                for j in fn.walk(x[side]):
+                    y = fn.e(j)
+                    if y["k"] == "member" and y.get("field") in ("granularity", "granularity_log2"):
+                        kinds.add("impl" if re.search(r"\bimpl\b", fn.text(y["base"])) else "pool")
+                    elif y["k"] == "ref" and y.get("did") in loc_kind and y.get("name", "").startswith("granularity"):
+                        kinds.add(loc_kind[y["did"]])
+            if not kinds:
+                continue
+            # pool sizing (`impl->granularity << pool_id`) is not a conversion: the shifted value IS the base granularity
+            if kinds == {"impl"} and x["op"] in ("<<", "<<="):
+                continue
+            involves_area = bool(re.search(r"area|range_|offset", fn.text(i)))
+            if not involves_area:
+                continue
+            nconv += 1
+            chk.ob(R9, "%s|%s" % (sname, " ".join(fn.text(i).split())[:48]), "impl" not in kinds, loc=fn.loc(i),
+                   detail="`%s` converts an area quantity with the allocator's base granularity; areas of this block are counted in the pool's "
+                          "granules (pools 1 and 2 use 2x and 4x the base)" % " ".join(fn.text(i).split())[:80],
+                   key="areaunit|%s|%s" % (sname, re.sub(r"\s+", "", fn.text(i))[:48]))
+    chk.floor(R9 + ":conversions", nconv, 6)
+
     return chk.finish(
         level="other",
         explanation=("Accounting / guard / flag rules over asmjit/core/jitallocator.{h,cpp}: inverse-paired statistics updates on all "
